@@ -406,6 +406,20 @@ def build():
         exsures={"KeyError": {"the_tasks_exception_is_re_raised": "exc is orig()"}},
     ))
 
+    # ---- AutoBatchingMixin.compute_batch_size: whatever the timing statistics, the batch size handed to dispatch_one_batch is >= 1
+    # (a batch size of 0 slices nothing from the input, which dispatch_one_batch takes for exhaustion: the remaining tasks are dropped)
+    p.add(Contract(
+        "joblib/_parallel_backends.py", "AutoBatchingMixin.compute_batch_size", props=["C01", "C09"],
+        params=dict(self=ObjOf("LokyBackend", _effective_batch_size=INT, _smoothed_batch_duration=REAL, MIN_IDEAL_BATCH_DURATION=0.2, MAX_IDEAL_BATCH_DURATION=2,
+                               _DEFAULT_SMOOTHED_BATCH_DURATION=0.0, parallel=OpaqueOf("par", verbose=INT))),
+        requires=["self._effective_batch_size >= 1", "self._smoothed_batch_duration >= 0"],
+        returns=INT,
+        ensures={"at_least_one_task_per_batch": "result >= 1",
+                 "representation_invariant_kept": "self._effective_batch_size >= 1 and self._effective_batch_size == result",
+                 "never_more_than_doubles": "result <= 2 * old(self._effective_batch_size)"},
+    ))
+    p.log_calls.update({"self.parallel._print"})
+
     # ---- backends: abort_everything restarts only when asked to stay ready
     PB = "joblib/_parallel_backends.py"
     p.models["pool.close"] = lambda i, r, a, k: i.ctx.events.append(("pool.close",))
